@@ -187,12 +187,34 @@ pub fn c10<E: TGlue>(ctx: &mut Ctx) {
         ctx.fail("table:transform-mutated-source", inp("transform"), format!("{:?}", seq), format!("{:?}", read_all::<E>(&en, &base)));
     }
     // all(): every Some/None mask; all_ok(): every Ok/Err mask, first Err in declaration order
-    let nm = 1u64 << n;
-    for m in 0..nm {
+    // (for a large table: the empty mask, every single position, and pseudo-random masks)
+    let masks: Vec<Vec<bool>> = if n <= 10 {
+        (0..(1u64 << n)).map(|m| (0..n).map(|i| (m >> i) & 1 == 1).collect()).collect()
+    } else {
+        let mut v: Vec<Vec<bool>> = vec![vec![false; n]];
+        for i in 0..n {
+            let mut m = vec![false; n];
+            m[i] = true;
+            v.push(m);
+        }
+        let mut x = spec.hash64() | 1;
+        for _ in 0..64 {
+            v.push((0..n).map(|_| {
+                x ^= x << 13;
+                x ^= x >> 7;
+                x ^= x << 17;
+                x % 5 == 0
+            }).collect());
+        }
+        v
+    };
+    let nm = masks.len() as u64;
+    for (mi, mk) in masks.iter().enumerate() {
         ctx.eval();
-        ctx.nontrivial(format!("{}/mask/{}", spec.name, m).as_bytes());
-        let opts: Vec<Option<i64>> = (0..n).map(|i| if (m >> i) & 1 == 1 { None } else { Some(20 + i as i64) }).collect();
-        let want = if m == 0 { Some(opts.iter().map(|o| o.unwrap()).collect::<Vec<_>>()) } else { None };
+        ctx.nontrivial(format!("{}/mask/{}", spec.name, mi).as_bytes());
+        let m_is_empty = mk.iter().all(|b| !*b);
+        let opts: Vec<Option<i64>> = (0..n).map(|i| if mk[i] { None } else { Some(20 + i as i64) }).collect();
+        let want = if m_is_empty { Some(opts.iter().map(|o| o.unwrap()).collect::<Vec<_>>()) } else { None };
         let got = E::all(&opts).map(|t| read_all::<E>(&en, &t));
         let ok = match (&got, &want) {
             (None, None) => true,
@@ -202,7 +224,7 @@ pub fn c10<E: TGlue>(ctx: &mut Ctx) {
         if !ok {
             ctx.fail("table:all", json!({"op": "all", "mask": mask, "options": format!("{:?}", opts)}), format!("{:?}", want), format!("{:?}", got));
         }
-        let rs: Vec<Result<i64, i64>> = (0..n).map(|i| if (m >> i) & 1 == 1 { Err(-(i as i64) - 1) } else { Ok(20 + i as i64) }).collect();
+        let rs: Vec<Result<i64, i64>> = (0..n).map(|i| if mk[i] { Err(-(i as i64) - 1) } else { Ok(20 + i as i64) }).collect();
         let want_err = rs.iter().find_map(|r| r.err());
         let got = E::all_ok(&rs).map(|t| read_all::<E>(&en, &t));
         let ok = match (&got, want_err) {
@@ -214,7 +236,28 @@ pub fn c10<E: TGlue>(ctx: &mut Ctx) {
             ctx.fail("table:all_ok", json!({"op": "all_ok", "mask": mask, "results": format!("{:?}", rs)}), format!("first Err in declaration order: {:?}", want_err), format!("{:?}", got));
         }
     }
-    ctx.exhaustive("all Some/None and Ok/Err masks (2^n each)", 2 * nm);
+    if n <= 10 {
+        ctx.exhaustive("all Some/None and Ok/Err masks (2^n each)", 2 * nm);
+    }
+    // one write to each key in turn: exactly that slot changes
+    for p in 0..n {
+        ctx.eval();
+        let mut t = E::new_seq(&seq);
+        let mut want = seq.clone();
+        want[p] = 999;
+        let got = catch(|| {
+            E::set(&mut t, en[p], 999);
+            read_all::<E>(&en, &t)
+        });
+        match got {
+            Ok(Ok(g)) if g == want => {}
+            other => {
+                ctx.fail("table:single-write", inp(&format!("table[{}] = 999", spec.variants[en[p]].ident)), format!("only slot {} changes", p), format!("{:?}", other).chars().take(300).collect());
+                break;
+            }
+        }
+    }
+    ctx.exhaustive("a single write to every key, whole table read back", n as u64);
     // disabled keys panic
     for (k, v) in spec.variants.iter().enumerate() {
         if v.disabled() {
